@@ -8,7 +8,7 @@ static CaseResult run_case(Tape &t)
 {
 	CaseResult r;
 	ses::Profile P;
-	P.w_ping = 8; P.w_up = 2; P.w_offer = 5; P.w_adv = 2; P.w_nreq = 2; P.w_redeliver = 0; P.w_freeze = 1; P.w_recycle = 1;
+	P.w_ping = 8; P.w_up = 2; P.w_offer = 5; P.w_adv = 2; P.w_nreq = 2; P.w_redeliver = 2; P.w_freeze = 1; P.w_recycle = 1;
 	P.wild_frag = true; P.ack_games = true; P.max_sessions = 2; P.c2c = true; P.max_body = t.chance(1, 6) ? 20000 : 1400;
 	ses::Run R;
 	ses::run_sessions(t, P, R);
@@ -25,6 +25,8 @@ static CaseResult run_case(Tape &t)
 	if (R.n_giveup) r.cls("server-gave-packet-up");
 	if (R.n_lost_answers) r.cls("answers-lost");
 	if (R.n_trunc) r.cls("size-exceeds-format(unjudged packet)");
+	if (R.n_redeliver) r.cls("re-deliveries");
+	if (R.n_red_after_lower) r.cls("re-delivery-after-the-size-was-lowered");
 	if (R.n_recycled) r.cls("slot-expired-and-reused");
 	if (R.n_recycled_same_name) r.cls("new-session-repeats-a-name-of-the-earlier-session");
 	if (R.peers.size() > 1) r.cls("two-sessions");
